@@ -16,14 +16,15 @@ for p in C01 C10 C17 C18; do
         VERIF_JOBS=5  "$BIN" fingerprints $p quick $start "$N" > "$OUT/$p.$start.j5"  || rc=2
         VERIF_JOBS=16 "$BIN" fingerprints $p quick $start "$N" > "$OUT/$p.$start.j16" || rc=2
         VERIF_JOBS=16 "$BIN" fingerprints $p quick $start "$N" > "$OUT/$p.$start.j16b" || rc=2
+        ok=1
         for f in j5 j16 j16b; do
             if ! cmp -s "$OUT/$p.$start.j1" "$OUT/$p.$start.$f"; then
                 echo "DETERMINISM FAILURE: $p start=$start: 1 worker vs $f differ:"
                 diff "$OUT/$p.$start.j1" "$OUT/$p.$start.$f" | head -5
-                rc=1
+                rc=1; ok=0
             fi
         done
-        echo "$p start=$start: $(wc -l < "$OUT/$p.$start.j1") runs x 4 executions (1, 5, 16, 16 workers; separate processes): identical"
+        [ "$ok" = 1 ] && echo "$p start=$start: $(wc -l < "$OUT/$p.$start.j1") runs x 4 executions (1, 5, 16, 16 workers; separate processes): identical"
     done
 done
 rm -rf "$OUT"
